@@ -182,6 +182,9 @@ func (s *Stream) close(status int32) error {
 	atomic.StoreInt32(&s.status, status)
 	vhook.At("close.marked", s)
 
+	// 已关闭的流不能再被查找到：如果媒体中心映射的仍是本流则移除（不会误删后继者）
+	streams.CompareAndDelete(s.path, s)
+
 	// 关闭 hls
 	if s.tsMuxer != nil {
 		s.tsMuxer.Close()
